@@ -190,9 +190,9 @@ def gitExpand (lookup : Str → Option Str) (isCommand : Str → Bool) :
       else match lookup c with
         | none => .runs argv
         | some v =>
-          match v with
-          | '!' :: _ => .shell c
-          | _ =>
+          -- `alias_string[0] == '!'`
+          if v.head? = some '!' then .shell c
+          else
             match gitSplit v with
             | .error e => .badAlias c e
             | .ok ts =>
